@@ -139,7 +139,8 @@ PROPS = {
                 "a not-drawn result when the state before the move was not drawn, and C05's oracle judges every push (repetitions "
                 "against the common past). Non-trivial = distinct programs with >= 2 take-backs at nesting >= 2, or a fork followed "
                 "by operations on more than one board. evaluations = programs. "
-                "After every successful take-back the result must be not-drawn, whatever the position returned to had been flagged with (label: take-backs onto positions that had been flagged drawn).",
+                "After every successful take-back the result must be not-drawn, whatever the position returned to had been flagged with (label: take-backs onto positions that had been flagged drawn). "
+                "Every position object a board hands out is remembered (up to 400 per case) with a copy of its value; none may ever change afterwards, whatever is taken back or played on any board.",
         "assumptions": COMMON_ASSUMPTIONS + ["boards do not take back below a fork point they share (documented precondition of Board.Fork)",
                                              "after a take-back from a state that was already flagged drawn the result may be either (the property only promises 'not drawn' when it was not drawn before)"],
         "level_text": "Exploration with a model: stateful operation sequences over several forked boards, an inverse (snapshot "
@@ -164,7 +165,8 @@ PROPS = {
                 "square, partial rights, Black to move or unusual clocks (roundtrip); programs containing castling, capture + "
                 "take-back, or a Black-to-move set-up (engine). evaluations = cases. "
                 "C14/concurrent: one goroutine plays a generated line forward and takes it back 20-120 times while 1-4 goroutines call Engine.Position(); every FEN reported must be the standard FEN of one of the states of that game (the engine serialises its methods). "
-                "C14/racingmoves: two moves offered by two goroutines at the same moment (20-200 repetitions per case); the reported FEN must be the outcome of playing the accepted moves in one of the two orders.",
+                "C14/racingmoves: two moves offered by two goroutines at the same moment (20-200 repetitions per case); the reported FEN must be the outcome of playing the accepted moves in one of the two orders. "
+                "FEN counters are drawn at the boundaries of the integer widths as well (127 .. 2^62+1 in the codec round trip, up to 2^31-1 in engine resets).",
         "assumptions": COMMON_ASSUMPTIONS + ["canonical FEN = the oracle's encoder (castling letters KQkq in that order, '-' when empty)"],
         "level_text": "Exploration: 40k generated positions with free clocks through both round-trips, and 8k engine programs "
                       "(~300k operations) compared with an independently maintained standard FEN after every step.",
@@ -274,7 +276,8 @@ PROPS = {
                 "positions never rates a position with a legal move below its static evaluation and rates checkmate / stalemate "
                 "exactly. Non-trivial = distinct (root, depth, config, window) with a finite mate-distance bound or a bound adjacent "
                 "or equal to v; quiescence cases all count. evaluations = windowed searches. "
-                "Cases with a table run a full-window search of the same root on the same table after the windowed one; it must return the true value.",
+                "Cases with a table run a full-window search of the same root on the same table after the windowed one; it must return the true value. "
+                "A sixth of the cases leave one bound unset in the search context (a half-open window: an unset bound is no bound).",
         "assumptions": COMMON_ASSUMPTIONS + ["same reference and discards as C03"],
         "level_text": "Exploration: ~12k windowed searches per quick run judged by the three-way clip relation against an "
                       "independent exhaustive value, with windows aimed at the places where off-by-one-ply errors show (bounds one "
@@ -339,7 +342,8 @@ PROPS = {
                 "caller's context must be what the caller built after the halt and the same restricted search run afterwards returns the "
                 "unhalted value. C12/launchctx: an iterative analysis (searchctl.Iterative, gated) whose LAUNCH context is cancelled while "
                 "iteration k is held at the gate, or at the n-th cancellation poll inside iteration k: nothing of the interrupted "
-                "iteration is published, the stream ends, Halt() returns the last completed iteration.",
+                "iteration is published, the stream ends, Halt() returns the last completed iteration. "
+                "C12/iterhalt: an iterative analysis launched on a board the harness keeps, halted through Handle.Halt 0-2000 us after launch; the moment its stream closes the board must be back in the state it was handed over in.",
         "assumptions": COMMON_ASSUMPTIONS + ["cancellation is observed only through Done() polls (true for context.Context users); halting through searchctl's quit channel is exercised in C15/C16"],
         "level_text": "Fault enumeration: every cancellation poll of small searches, and a strided subset of larger ones (about "
                       "50k halting points per quick run), each followed by a search on the same table and compared with the run in "
@@ -369,7 +373,8 @@ PROPS = {
                 "colours: 0 <= soft <= hard <= time left. Non-trivial: every iterative case (labelled by how it ended: limit / mate / "
                 "halt / halt-ungated); time-control cases with moves-to-go != 0 or < 1 s left. evaluations = cases. "
                 "C15/again: second and later analyses of an engine with Hash 0-2 MB, gated iteration by iteration: after a completed analysis of depth D (and 0-2 moves of its variation played) an analysis with limit L searches and reports depth 1, 2, ... in order and ends by itself exactly at L (or at a forced mate it reports itself); non-trivial = the first analysis reached depth >= 2. "
-                "A quarter of the C15/iterative cases set a (generous) time-control option; a gated halt must cancel the context of the pending iteration within 5 s. C15/clock: 0-400 ms on both clocks with depth 1 held at the gate for 0-25 ms (the hard limit expires during depth 1): depth 1 must still be searched, reported faithfully and returned by Halt(). C15/halttwice: iteration k completes while a first Halt() is in progress (held at the gate's exit), is then reported; a second Halt() must not return anything shallower. C15/timecontrol draws moves-to-go over the whole int range (integer-width boundaries included).",
+                "A quarter of the C15/iterative cases set a (generous) time-control option; a gated halt must cancel the context of the pending iteration within 5 s. C15/clock: 0-400 ms on both clocks with depth 1 held at the gate for 0-25 ms (the hard limit expires during depth 1): depth 1 must still be searched, reported faithfully and returned by Halt(). C15/halttwice: iteration k completes while a first Halt() is in progress (held at the gate's exit), is then reported; a second Halt() must not return anything shallower. C15/timecontrol draws moves-to-go over the whole int range (integer-width boundaries included). "
+                "C15/clock also sets a depth limit far beyond what the clock allows in half of its cases: the clock still rules.",
         "assumptions": COMMON_ASSUMPTIONS + ["node counts are not compared (the property names score and PV)", "liveness is judged with a 30 s grace period"],
         "level_text": "Exploration with a harness-owned schedule: ~3k analyses per quick run, every reported depth compared with "
                       "a direct search and the stop/halt rules checked at generated halt points; 40k time-control parameter sets.",
@@ -450,7 +455,8 @@ PROPS = {
                 "total number of bestmove lines equals the number of go commands. C04/blackbox: the real cmd/* binaries built from the "
                 "working tree, driven over pipes with the same oracle. Non-trivial = distinct scripts in which a searched position "
                 "has more than one legal move or a go is repeated on the same position. evaluations = scripts. "
-                "Go lines include moves-to-go at the integer-width boundaries, negative moves-to-go, and non-positive move times (which are no move time).",
+                "Go lines include moves-to-go at the integer-width boundaries, negative moves-to-go, and non-positive move times (which are no move time). "
+                "A fifth of the rounds change the Hash or Noise option in the middle of the game (the next go may come without a new position).",
         "assumptions": COMMON_ASSUMPTIONS + ["'ended' is decided by protocol (stop + isready/readyok processed, or the engine's own bestmove), with a 20 s grace period for liveness",
                                              "clock and movetime variants use real timers; the verdict depends only on count and legality of the answer"],
         "level_text": "Exploration: ~2.4k scripts (~6k go commands) per quick run in-process plus black-box runs of the real "
@@ -487,7 +493,8 @@ PROPS = {
                 "while a search was held, a held iteration was released singly, or shutdown happened with a search in flight; all "
                 "ungated scripts with a go. evaluations = scripts. "
                 "Odd clocks (fallen flags, one clock only, moves-to-go without clocks) and malformed position lines ending in a pseudo-legal-but-illegal, non-pseudo-legal or unparsable move (the driver must go on or shut down) are part of the scripts. The quick tier ends with a short pass (a tenth of the scripts, other seeds) on the race-instrumented binary: a race report with a math/rand.(*Rand) frame is a violation (the thorough tier runs entirely on that binary). "
-                "Scripts with a move-time go end with a goroutine census: 400 ms after shutdown no goroutine may be inside the driver package.",
+                "Scripts with a move-time go end with a goroutine census: 400 ms after shutdown no goroutine may be inside the driver package. "
+                "Stall scripts (first iterations held): the first iteration of a 'go movetime 300' stays held until the next halting command has been sent and the move time has run out, so that the timer of the superseded search fires while the command loop waits for depth 1; the successor's own first iteration stays held.",
         "assumptions": COMMON_ASSUMPTIONS + ["the Go scheduler between gates is not owned by the harness", "race-detector reports in these runs are recorded as diagnostics (C17 is where race freedom is demanded), with one exception: concurrent use of a single math/rand.Rand, which is documented as unsafe and panics (index out of range) under contention - a crash waiting for its schedule - is a violation",
                                              "lines the driver answers by a deliberate shutdown (unparsable go arguments) end the script: clean closure is required"],
         "level_text": "Exploration with a harness-owned schedule for the orderings that matter (search completion vs command "
